@@ -484,6 +484,10 @@ func (u *Unit) preludeText() string {
 	if u.MaxUConst {
 		sb.WriteString("(declare-const maxU Int)\n(assert (or (= maxU 255) (= maxU 65535) (= maxU 4294967295) (= maxU 18446744073709551615)))\n")
 	}
+	for _, p := range u.Prelude {
+		sb.WriteString(p)
+		sb.WriteString("\n")
+	}
 	for _, n := range sortedKeys(u.CS.SpecFuncs) {
 		sf := u.CS.SpecFuncs[n]
 		if sf.Declared {
@@ -504,12 +508,10 @@ func (u *Unit) preludeText() string {
 			rs = "Bool"
 		case "set":
 			rs = "(Array Int Bool)"
+		case "string":
+			rs = "Str"
 		}
 		fmt.Fprintf(&sb, "(declare-fun %s (%s) %s)\n", sym(n), strings.Join(ps, " "), rs)
-	}
-	for _, p := range u.Prelude {
-		sb.WriteString(p)
-		sb.WriteString("\n")
 	}
 	sb.WriteString(u.defPredAxioms())
 	if !u.SkipSMT {
@@ -552,6 +554,8 @@ func (u *Unit) paramSort(p ParamDecl) Sort {
 			return arr(SInt, "DT_token")
 		case "string", "str":
 			return SStr
+		case "TLog":
+			return "TLog"
 		}
 		if obj, ok := u.Pkg.Types.Scope().Lookup(id.Name).(*types.TypeName); ok {
 			if _, isStruct := obj.Type().Underlying().(*types.Struct); isStruct && !u.isHeapStruct(obj.Type()) {
